@@ -143,7 +143,7 @@ CLAIMED["C09"] = dict(
          "relayed datagrams, rule matching on malformed fields. Tied to the code by an exhaustive sweep of short strings over a reduced "
          "alphabet appended to valid prefixes (~420k cases per quick run, compared with the models and run under catch_unwind).",
     note="Trusted: Lean kernel, harness/door; third-party parsers (httparse, tls-parser, toml_edit, ipnet, hex, base64) are only "
-         "exercised as black boxes; origin HTTP responses are C17's subject. 'Loop without consuming input' is settled by structural "
+         "exercised as black boxes; origin HTTP responses are C17's subject; the QUIC listener's handling of malformed datagrams and the TCP listener's of garbage first bytes are exercised live (suite c09live: survival only, no model). 'Loop without consuming input' is settled by structural "
          "recursion / explicit fuel lemmas in the models (C06 chunk_ok, C08 no_spin, C11 skipIpv6Ext).",
 )
 CLAIMED["C01"] = dict(
